@@ -36,6 +36,7 @@ func init() {
 		generators[p] = append(generators[p], GenSession)
 	}
 	generators["C11"] = []genFn{genC11Mix}
+	generators["C05"] = []genFn{genC05Mix}
 	generators["C09"] = []genFn{genC09Mix}
 }
 
@@ -46,6 +47,16 @@ func genC09Mix(prop string, seed uint64, thorough bool) *Scenario {
 		return GenSession(prop, seed, thorough)
 	}
 	return GenHostile(prop, seed, thorough)
+}
+
+// C05's admission decision depends on the state of the session a request names: one run in four is a whole-session
+// scenario (sessions that are closing, upgrading, closed in the instant of the request) judged by the clause "a
+// request naming a session that has not closed is admitted".
+func genC05Mix(prop string, seed uint64, thorough bool) *Scenario {
+	if splitmix64(seed^0xc05)%4 == 0 {
+		return GenSession(prop, seed, thorough)
+	}
+	return GenAdmission(prop, seed, thorough)
 }
 
 // C11 also looks at what raw (non-conformant) clients do to the request discipline: every request the server
